@@ -64,6 +64,8 @@ def decorate(shapes, seed=0, feat=frozenset()):
     langs = LANGS if "lang" in feat and rnd.random() < 0.7 else []
     # names may contain dots and hyphens (legal XML names; `${n3.a-b}` must still be found as a reference)
     dotted = "dotted_names" in feat and rnd.random() < 0.3
+    # the deprecated 'disabled' column: a yes cell removes the row, a no cell changes nothing (several such cells per form)
+    use_disabled = "disabled" in feat and rnd.random() < 0.3
     n = 1
     lists_used = set()
     for shape, given in shapes:
@@ -277,9 +279,16 @@ def decorate(shapes, seed=0, feat=frozenset()):
                 row["trigger"] = "${" + rnd.choice(vis) + "}"
                 if "calculation" not in row and rnd.random() < 0.7:
                     row["calculation"] = rnd.choice(["now()", "1 + 1"])
+        off = False
+        if use_disabled and is_q and rnd.random() < 0.5:
+            f.col("disabled")
+            row["disabled"] = rnd.choice(["yes", "no", "true", "yes", "false"])
+            off = row["disabled"] in ("yes", "true")
+            if off:
+                info["shape"] = "disabled"       # (not a candidate for references or triggers)
         f.rows.append(row)
         f.info.append(info)
-        if is_q:
+        if is_q and not off:
             f.qnames.append(info["name"])
             if row["type"] in ("integer", "int"):
                 f.intnames.append(info["name"])
